@@ -300,6 +300,27 @@ Proof.
   cbn [answer_of poll_frame]. rewrite D, NC. eexists. split; reflexivity.
 Qed.
 
+(* a chunk that starts with a complete prefix declaring more than the limit: refused at once *)
+Lemma idle_oversize d0 d1 g a b c x more rest : idle d0 d1 -> e0 = None \/ True ->
+  lim < un_be32 a b c x ->
+  exists d', poll_next (BData (0 :: a :: b :: c :: x :: more) :: rest) g d0 =
+               (Item (IErr st_too_large), d', rest, g) /\ d_state d' = Error None.
+Proof.
+  intros Id _ L. destruct Id as (NE & DC & J1 & B & S).
+  assert (NE1 : non_error d1) by apply J1.
+  assert (L1 : limit_of d1 = lim) by apply J1.
+  assert (DC1 : decode_chunk d1 = KNone d1).
+  { unfold Decoder.decode_chunk, inner_decode_chunk. rewrite S, B. reflexivity. }
+  assert (E : poll_next (BData (0 :: a :: b :: c :: x :: more) :: rest) g d0 =
+              poll_next (BData (0 :: a :: b :: c :: x :: more) :: rest) g d1).
+  { rewrite (poll_next_knone_cons _ _ _ _ _ _ _ NE DC), (poll_next_knone_cons _ _ _ _ _ _ _ NE1 DC1).
+    reflexivity. }
+  rewrite E.
+  destruct (dec_limit_poll deser decompress d1 g (0 :: a :: b :: c :: x :: more) rest 0 a b c x more S)
+    as (d' & P & _ & S'); [rewrite B; cbn; lia|now rewrite B|left; reflexivity|now rewrite L1|].
+  eauto.
+Qed.
+
 (* after an error the stream is over *)
 Lemma drain_after_error k evs g (d : dec enc) : d_state d = Error None ->
   drain (S k) evs g d = ([Done], Some (d, evs, g)).
